@@ -1,0 +1,52 @@
+//go:build verif
+
+// Contracts for the construction of an FFT domain of this field (comment-only; installed by /verif/gcv gen-contracts).
+// Layer "ring babybear.Element". NewDomain returns a domain whose cardinality is the value returned by
+// ecc.NextPowerOfTwo(m), whose generator is the value returned by Generator(m), and in which the three stored
+// inverses are the inverses of the values they are stored next to IN THE RETURNED DOMAIN: GeneratorInv of Generator,
+// CardinalityInv of the cardinality, FrMultiplicativeGenInv of the coset shift FrMultiplicativeGen (the shift of the
+// options when one is given, the value of GeneratorFullMultiplicativeGroup() otherwise). The option parser, NextPowerOfTwo and Generator are opaque calls captured at the call
+// site; the table precomputation runs in goroutines (outside the subset) and enters through an assumed frame.
+
+package fft
+
+//@ func Domain.preComputeTwiddles
+//@ layer ring babybear.Element
+//@ assumed goroutines are outside the subset: the precomputation is assumed to write only the four table fields of the domain (what the tables hold is not under contract)
+//@ modifies d.twiddles, d.twiddlesInv, d.cosetTable, d.cosetTableInv
+//@ end
+
+//@ func NewDomain
+//@ layer ring babybear.Element
+//@ option opaque-calls
+//@ option nomerge
+//@ option nullable-results
+//@ option panics-allowed
+//@ ghost n = 0
+//@ ghost g = 0
+//@ ghost gok = false
+//@ ghost pre = false
+//@ ghost noshift = false
+//@ ghost sh = 0
+//@ ghost dg = 0
+//@ cut after call NextPowerOfTwo #1
+//@ + ghost n = callresult
+//@ cut after call GeneratorFullMultiplicativeGroup #1
+//@ + ghost dg = callresult
+//@ cut after call domainOptions #1
+//@ + ghost pre = callresult.withPrecompute
+//@ + ghost noshift = isnil(callresult.shift)
+//@ + ghost sh = derefor(callresult.shift, 0)
+//@ cut after call Generator #1
+//@ + ghost g = callresult0
+//@ + ghost gok = isnil(callresult1)
+//@ ensures[cardinality] result.Cardinality == n
+//@ ensures[generator] gok && result.Generator == g
+//@ ensures[generator-inverse] result.GeneratorInv == inv(result.Generator)
+//@ ensures[cardinality-inverse] result.CardinalityInv == inv(result.Cardinality)
+//@ ensures[shift-inverse] result.FrMultiplicativeGenInv == inv(result.FrMultiplicativeGen)
+//@ ensures[shift] !noshift ==> result.FrMultiplicativeGen == sh
+//@ ensures[default-shift] noshift ==> result.FrMultiplicativeGen == dg
+//@ ensures[precompute-flag] result.withPrecompute == pre
+//@ modifies nothing
+//@ end
